@@ -77,7 +77,7 @@ pub fn check(thorough: bool, _seed: u64) -> Check {
         bounds: json!({"abscissae": format!("every increasing n-subset (n=3..{}) of {{0,1,2,3,4,5}} and of {{0,0.5,0.75,3,10,10.125}} under the transforms {:?}", if thorough {6} else {5}, &TRANSFORMS[..if thorough {8} else {7}]),
             "joint_extreme_scalings": "every 3..5-subset of {0..5} with x*2^-340 and y*2^-760, of the uneven set with x*2^340 and y*2^700 (all construction quantities normal, cross products not)",
             "long_lists": "n = 8,9,12,16,17,33,34,65,129,130,257 (also 10,32,64,66,131,258,513 thorough) knots with unit and with repeating uneven spacing, offset -7.5, scaled by 1e-6 and 3e5; ordinates from six patterns (convex, zig-zag, staircase, irregular, collinear, decreasing with 1e-9 bumps) x 7 shifts x 4 scales",
-            "regularity_lists": "every sequence of 3..4 (5 thorough) interval widths over {1,2,3} that is not constant; even grids of 3..5 knots (width 1 and 0.1) with one knot moved by 1e-9, -3e-11 or 2e-13 of the width; 0.3+0.1i and 1e6+0.1i; grids of width 1 and 0.1 starting at +-2e4 and +-1e6 (both sides of the origin); [0,1e-17,1,2], [-1,0,3e-18,5], [0,1,1+2^-50,3,4], [-2,-1e-17,0,1e-17,2] (width ratios of 1e15..1e18); ordinates {0,1,-2,3.5,1+1e-9}^n, and (up to 4 knots; 5 thorough) ordinates 0, 1, 5 or 2 ulps above 1, 1e9 or -0.3 (noisy plateaus)",
+            "regularity_lists": "every sequence of 3..4 (5 thorough) interval widths over {1,2,3} that is not constant; even grids of 3..5 knots (width 1 and 0.1) with one knot moved by 1e-9, -3e-11 or 2e-13 of the width; 0.3+0.1i and 1e6+0.1i; grids of width 1 and 0.1 starting at +-2e4 and +-1e6 (both sides of the origin); [0,1e-17,1,2], [-1,0,3e-18,5], [0,1,1+2^-50,3,4], [-2,-1e-17,0,1e-17,2] (width ratios of 1e15..1e18); ordinates {0,1,-2,3.5,1+1e-9}^n, and (up to 4 knots; 5 thorough) ordinates 0, 1, 5 or 2 ulps above 1, 1e9 or -0.3 (noisy plateaus), and on grids of ordinary size and spacing ramps with one end ordinate of 1e170 or -1e150 (dynamic range inside one data set)",
             "ordinates": "every vector in {0,1,-2,3.5,1+1e-9}^n (quick tier, five knots: {0,1,-2,1+1e-9}^5) and the near-collinear family y=2x+1+delta, delta in {0,1e-9,-1e-12}^n; each scaled by 1, 1e-3, 1e6, 2^-60",
             "oracle": "exact rational Kruger spline; returned f64 coefficients taken as exact; tolerance 2^10*2^-53*M with M_val=Y+6Sh(1+r)^3, M_der=12S(1+r)^2"}),
     };
